@@ -1018,7 +1018,11 @@ func (d *Ledger) actKV() {
 }
 
 func (d *Ledger) actAccountLevel() {
-	switch d.R.Intn(3) {
+	k := d.R.Intn(3)
+	if d.Profile == "acctlevel" && d.chance(50) {
+		k = 2
+	}
+	switch k {
 	case 0:
 		sc := d.pick(d.SCs)
 		caller := d.ownerOf(sc)
@@ -1213,6 +1217,8 @@ func DefaultWeights(profile string) map[string]int {
 		w["setrole"], w["unsetrole"], w["mintburn"], w["create"], w["nftrole"], w["handover"], w["acct"] = 10, 8, 14, 10, 16, 6, 10
 	case "freeze":
 		w["freeze"], w["pause"] = 16, 12
+	case "acctlevel":
+		w["acct"], w["deliver"], w["rogue"] = 60, 30, 6
 	case "kv":
 		w["kv"], w["acct"] = 30, 10
 	case "nonce":
